@@ -8,11 +8,11 @@ Transcribed, loop for loop:
 * `slcGo` / `setLinesForContent`  — `(*File).SetLinesForContent`
 * `searchGo` / `searchInts`       — the hand-inlined binary search `searchInts`; `sort.Search`
   (used by `searchFiles`) is the same loop (`int(uint(i+j)>>1) = i+(j-i)/2` on naturals)
-* `unpack`                        — `(*File).unpack` with no `//line` infos
-* `fileLookup`                    — `(*FileSet).file` including the `last` cache
+* `unpack` / `unpackAdj`           — `(*File).unpack` (raw part / with `//line` infos, `adjusted`)
+* `fileLookup`                    — `(*FileSet).file` including the `last` cache (the cached File object, by value)
 * `position`                      — `(*FileSet).PositionFor`
-* `addFile`, `setContent`         — `addFile`, `SetLinesForContent` on a member file
-* `write` / `read`                — `(*FileSet).Write/Read` (what `ToJson/FromJson` encode)
+* `addFile`, `setContent`, `addLineInfo` — `addFile`, `SetLinesForContent`, `AddLineColumnInfo` on a member file
+* `write` / `read` / `readInto`   — `(*FileSet).Write/Read` (what `ToJson/FromJson` encode), also into an existing set
 -/
 namespace WaVerif.C23
 
@@ -75,18 +75,30 @@ def searchEntry (a : List Int) (x : Int) : Option (Nat × Int) :=
 
 /-! ## files and file sets -/
 
+/-- `lineInfo`: alternative position registered by a `//line` / `/*line*/` directive -/
+structure LineInfo where
+  offset : Int
+  filename : String
+  line : Int
+  column : Int
+  deriving Repr, DecidableEq
+
 structure MFile where
   name : String
   base : Int
   size : Int
   cap : Int
   lines : List Int
+  infos : List LineInfo
   deriving Repr, DecidableEq
 
+/-- `last` is the cached `*File`: the File OBJECT last looked up.  It is modelled by value, so a
+set whose cache holds a file that is not (any longer) one of `files` is representable — that is
+the state `Read` must not leave behind (`CacheOK` in the lemmas). -/
 structure MSet where
   base : Int
   files : List MFile
-  last : Option Nat          -- index of the cached file
+  last : Option MFile
   deriving Repr, DecidableEq
 
 structure MPosition where
@@ -98,54 +110,72 @@ structure MPosition where
 
 def MPosition.zero : MPosition := ⟨"", 0, 0, 0⟩
 
-/-- `unpack` with an empty `infos` table: (line, column), `(0,0)` when the search returns -1 -/
+/-- the raw part of `unpack`: (line, column) from the line table, `(0,0)` when the search returns -1 -/
 def unpack (lines : List Int) (offset : Int) : Int × Int :=
   match searchEntry lines offset with
   | some (i, start) => ((i : Int) + 1, offset - start + 1)
   | none => (0, 0)
 
+/-- `(*File).unpack(offset, adjusted)`: filename, line, column; `searchLineInfos` is the same
+binary search over the infos' offsets -/
+def unpackAdj (f : MFile) (offset : Int) (adjusted : Bool) : String × Int × Int :=
+  let lc := unpack f.lines offset
+  if adjusted && !f.infos.isEmpty then
+    match searchEntry (f.infos.map (·.offset)) offset with
+    | some (i, _) =>
+      match f.infos[i]? with
+      | some alt =>
+        match searchEntry f.lines alt.offset with
+        | some (j, _) =>
+          let d := lc.1 - ((j : Int) + 1)
+          let col := if alt.column = 0 then 0 else if d = 0 then alt.column + (offset - alt.offset) else lc.2
+          (alt.filename, alt.line + d, col)
+        | none => (alt.filename, lc.1, lc.2)
+      | none => (f.name, lc.1, lc.2)
+    | none => (f.name, lc.1, lc.2)
+  else (f.name, lc.1, lc.2)
+
 def inFile (f : MFile) (p : Int) : Bool := decide (f.base ≤ p) && decide (p ≤ f.base + f.size)
 
-/-- the `last` cache test of `(*FileSet).file`: `f := s.last; f != nil && f.base <= p && p <= f.base+f.size` -/
-def cacheHit (s : MSet) (p : Int) : Option Nat :=
+/-- the `last` cache test of `(*FileSet).file`: `f := s.last; f != nil && f.base <= p && p <= f.base+f.size`
+— answers with the cached object itself -/
+def cacheHit (s : MSet) (p : Int) : Option MFile :=
   match s.last with
-  | some k => match s.files[k]? with
-    | some f => if inFile f p then some k else none
-    | none => none
+  | some f => if inFile f p then some f else none
   | none => none
 
 /-- the search of `(*FileSet).file`: `searchFiles` (= `sort.Search(a[i].base > x) - 1`) and the upper-bound test -/
-def searchFile (s : MSet) (p : Int) : Option Nat :=
+def searchFile (s : MSet) (p : Int) : Option MFile :=
   match searchEntry (s.files.map (·.base)) p with
   | some (i, _) =>
     match s.files[i]? with
-    | some f => if p ≤ f.base + f.size then some i else none
+    | some f => if p ≤ f.base + f.size then some f else none
     | none => none
   | none => none
 
-/-- `(*FileSet).file`: returns the index found and the new value of the `last` cache -/
-def fileLookup (s : MSet) (p : Int) : Option Nat × Option Nat :=
+/-- `(*FileSet).file`: the file found and the new value of the `last` cache -/
+def fileLookup (s : MSet) (p : Int) : Option MFile × Option MFile :=
   match cacheHit s p with
-  | some k => (some k, s.last)
+  | some f => (some f, s.last)
   | none =>
     match searchFile s p with
-    | some i => (some i, some i)
+    | some f => (some f, some f)
     | none => (none, s.last)
 
-def filePosition (f : MFile) (p : Int) : MPosition :=
+def filePosition (f : MFile) (p : Int) (adjusted : Bool) : MPosition :=
   let offset := p - f.base
-  let lc := unpack f.lines offset
-  ⟨f.name, offset, lc.1, lc.2⟩
+  let r := unpackAdj f offset adjusted
+  ⟨r.1, offset, r.2.1, r.2.2⟩
 
-/-- `(*FileSet).PositionFor(p, _)` (no infos): the Position and the set with updated cache -/
-def position (s : MSet) (p : Int) : MPosition × MSet :=
+/-- `(*FileSet).PositionFor(p, adjusted)`: the Position and the set with updated cache -/
+def positionFor (s : MSet) (p : Int) (adjusted : Bool) : MPosition × MSet :=
   if p = 0 then (MPosition.zero, s) else
   match fileLookup s p with
-  | (some k, last') =>
-    match s.files[k]? with
-    | some f => (filePosition f p, { s with last := last' })
-    | none => (MPosition.zero, { s with last := last' })
+  | (some f, last') => (filePosition f p adjusted, { s with last := last' })
   | (none, last') => (MPosition.zero, { s with last := last' })
+
+/-- `(*FileSet).Position(p)` -/
+def position (s : MSet) (p : Int) : MPosition × MSet := positionFor s p true
 
 def newFileSet : MSet := ⟨1, [], none⟩
 
@@ -154,8 +184,15 @@ def addFile (s : MSet) (name : String) (base size cap : Int) : Except String MSe
   let base := if base < 0 then s.base else base
   if base < s.base ∨ size < 0 then .error "illegal base or size" else
   let cap := if cap < size then size else cap
-  let f : MFile := ⟨name, base, size, cap, [0]⟩
-  .ok ⟨base + cap + 1, s.files ++ [f], some s.files.length⟩
+  let f : MFile := ⟨name, base, size, cap, [0], []⟩
+  .ok ⟨base + cap + 1, s.files ++ [f], some f⟩
+
+/-- a method mutating the `k`-th File object: the cache, if it holds that object, sees the change -/
+def updateFile (s : MSet) (k : Nat) (f f' : MFile) : MSet :=
+  { s with files := s.files.set k f',
+           last := match s.last with
+             | some g => if g = f then some f' else some g
+             | none => none }
 
 /-- `SetLinesForContent` on the `k`-th file -/
 def setContent (s : MSet) (k : Nat) (c : List Nat) : Except String MSet :=
@@ -163,7 +200,18 @@ def setContent (s : MSet) (k : Nat) (c : List Nat) : Except String MSet :=
   | none => .error "no such file"
   | some f =>
     if f.cap < (c.length : Int) then .error "file content large than capacity" else
-    .ok { s with files := s.files.set k { f with size := c.length, lines := setLinesForContent c } }
+    .ok (updateFile s k f { f with size := c.length, lines := setLinesForContent c })
+
+/-- `AddLineColumnInfo(offset, filename, line, column)` on the `k`-th file:
+`i == 0 || infos[i-1].Offset < offset && offset < size` -/
+def addLineInfo (s : MSet) (k : Nat) (li : LineInfo) : Except String MSet :=
+  match s.files[k]? with
+  | none => .error "no such file"
+  | some f =>
+    let ok : Bool := match f.infos.getLast? with
+      | none => true
+      | some prev => decide (prev.offset < li.offset) && decide (li.offset < f.size)
+    if ok then .ok (updateFile s k f { f with infos := f.infos ++ [li] }) else .ok s
 
 /-! ## serialisable form -/
 
@@ -172,6 +220,7 @@ structure SFile where
   base : Int
   size : Int
   lines : List Int
+  infos : List LineInfo
   deriving Repr, DecidableEq
 
 structure SSet where
@@ -179,10 +228,13 @@ structure SSet where
   files : List SFile
   deriving Repr, DecidableEq
 
-def write (s : MSet) : SSet := ⟨s.base, s.files.map fun f => ⟨f.name, f.base, f.size, f.lines⟩⟩
+def write (s : MSet) : SSet := ⟨s.base, s.files.map fun f => ⟨f.name, f.base, f.size, f.lines, f.infos⟩⟩
 
+/-- `Read` into a fresh or an EXISTING set: base and files are replaced and the cache is dropped -/
 def read (ss : SSet) : MSet :=
-  ⟨ss.base, ss.files.map fun f => ⟨f.name, f.base, f.size, 0, f.lines⟩, none⟩
+  ⟨ss.base, ss.files.map fun f => ⟨f.name, f.base, f.size, 0, f.lines, f.infos⟩, none⟩
+
+def readInto (_old : MSet) (ss : SSet) : MSet := read ss
 
 /-! ## independent specification of line and column -/
 
